@@ -194,7 +194,7 @@ impl Prop for C13 {
         let l = tier.pick(8usize, 24usize);
         let num = prop_oneof![4 => gen::moderate(30), 1 => gen::any_finite()];
         (
-            (0u8..18, vec(gen::any_non_nan(), 1..8)),
+            (0u8..20, vec(gen::any_non_nan(), 1..8)),
             prop_oneof![9 => vec(any::<u16>(), 1..=l), 1 => vec(any::<u16>(), 1..=60)],
             prop_oneof![9 => vec(any::<u16>(), 1..=l), 1 => vec(any::<u16>(), 1..=60)],
             (0u8..4, any::<bool>(), any::<u16>()),
@@ -262,7 +262,7 @@ impl Prop for C13 {
     fn from_bytes(&self, u: &mut Unstructured) -> Option<Case> {
         let kind: u8 = u.arbitrary().ok()?;
         let mut custom = Vec::new();
-        if kind % 9 == 8 {
+        if kind % 10 == 9 {
             for _ in 0..(1 + u.arbitrary::<u8>().ok()? % 6) {
                 let f = fuzz_f64(u)?;
                 custom.push(f);
